@@ -215,6 +215,15 @@ class CallGraph:
                         return out
                     # attribute holding a callable (e.g. self.fifo_item.append handled below) or data
                     return self._by_name(finfo, attr)
+            if isinstance(recv, ast.Call):
+                # method of the result of a call into a non-fparser module (e.g. logging.getLogger(..).error)
+                d2 = A.dotted(recv.func)
+                if d2:
+                    root = d2.split(".")[0]
+                    if root not in self.locals_of(finfo):
+                        ent0 = m.resolve_name_in_func(finfo, root)
+                        if ent0 and ent0.get("kind") == "module" and not ent0["name"].startswith("fparser"):
+                            return [Target("extern", name=d2 + "()." + attr)]
             d = A.dotted(recv)
             if d is not None:
                 parts = d.split(".")
